@@ -112,6 +112,7 @@ func runC01(c *Ctx, r *Report) {
 	r.Rule("C01.R2", "precedence conformance: the weak order on operator tokens given by ast.Precedences equals the documented one (13 classes), and the infix parser parses its right operand at the operator's own precedence (left associativity)")
 	r.Rule("C01.R3", "short circuit: when the operator is && and the left operand is false (|| and true) the right operand is not evaluated: the true edge of those tests reaches only a return")
 	r.Rule("C01.R5", "validation precedes normalisation: an ordering test between two program integers that rejects the operation (returns an error) is not applied to values that were both already clamped by min() to the same bound (clamping maps distinct invalid pairs to equal, valid ones)")
+	r.Rule("C01.R6", "captured output is delivered: in a function that stores the address of a local buffer into State.Out, every path from that store to a return restores Out and then writes the buffer's bytes to the restored writer (or leaves through the buffer-is-empty edge)")
 	r.Rule("C01.R4", "errors stop evaluation: no result of Eval/evalInternal is stored into an array element, a map pair or a binding unless a Type()==ERROR test has excluded the error on that path (interprocedural)")
 
 	tr := c.TokRel()
@@ -488,6 +489,177 @@ func runC01(c *Ctx, r *Report) {
 	}
 	r.Note("C01.R4: %d storage sinks / storing call sites examined", checked)
 	r.Floor("C01.R4", 5)
+
+	// ---- R6 ----
+	c.checkCapturedOutput(r)
+}
+
+// checkCapturedOutput: a function that points State.Out at a local buffer owes the captured bytes to
+// the writer it replaced, on every way out (rule C01.R6).
+func (c *Ctx) checkCapturedOutput(r *Report) {
+	stateT := c.TypeNamed("eval", "State")
+	outIdx := fieldIndex(stateT, "Out")
+	if outIdx < 0 {
+		r.Undecided("C01.R6: eval.State.Out not found")
+		return
+	}
+	isOutAddr := func(v ssa.Value) bool {
+		fa, ok := v.(*ssa.FieldAddr)
+		return ok && fa.Field == outIdx && namedStruct(fa.X.Type()) != nil && namedStruct(fa.X.Type()).Obj() == stateT.Obj()
+	}
+	n := 0
+	for _, fn := range c.ModuleSSAFuncs() {
+		eachInstr(fn, func(in ssa.Instruction) {
+			st, ok := in.(*ssa.Store)
+			if !ok || !isOutAddr(st.Addr) {
+				return
+			}
+			mi, ok := st.Val.(*ssa.MakeInterface)
+			if !ok {
+				return
+			}
+			buf, ok := mi.X.(*ssa.Alloc)
+			if !ok {
+				return
+			}
+			// only a state handed in by the caller has a writer to give back (a state created here and
+			// given a buffer as its writer, as in repl.EvalStringWithOption, replaces nothing)
+			if _, isParam := st.Addr.(*ssa.FieldAddr).X.(*ssa.Parameter); !isParam {
+				return
+			}
+			n++
+			fname := ssaFuncName(fn)
+			isBufCall := func(v ssa.Value, method string) bool {
+				call, ok := v.(*ssa.Call)
+				if !ok {
+					return false
+				}
+				obj := calleeObj(call)
+				return obj != nil && obj.Name() == method && len(call.Common().Args) > 0 && call.Common().Args[0] == ssa.Value(buf)
+			}
+			var fromBytes func(v ssa.Value, seen map[ssa.Value]bool) bool
+			fromBytes = func(v ssa.Value, seen map[ssa.Value]bool) bool {
+				if seen[v] {
+					return false
+				}
+				seen[v] = true
+				if isBufCall(v, "Bytes") || isBufCall(v, "String") {
+					return true
+				}
+				if phi, ok := v.(*ssa.Phi); ok {
+					for _, e := range phi.Edges {
+						if fromBytes(e, seen) {
+							return true
+						}
+					}
+				}
+				return false
+			}
+			// restore: a store to Out of something that is not this buffer
+			isRestore := func(x ssa.Instruction) bool {
+				s2, ok := x.(*ssa.Store)
+				if !ok || !isOutAddr(s2.Addr) {
+					return false
+				}
+				if m2, ok := s2.Val.(*ssa.MakeInterface); ok && m2.X == ssa.Value(buf) {
+					return false
+				}
+				return true
+			}
+			// flush: Write(bytes of buf) on a writer read from Out
+			isFlush := func(x ssa.Instruction) bool {
+				call, ok := x.(*ssa.Call)
+				if !ok || !call.Common().IsInvoke() || call.Common().Method.Name() != "Write" {
+					return false
+				}
+				ld, ok := call.Common().Value.(*ssa.UnOp)
+				if !ok || !isOutAddr(ld.X) {
+					return false
+				}
+				return len(call.Common().Args) == 1 && fromBytes(call.Common().Args[0], map[ssa.Value]bool{})
+			}
+			// emptyEdge: the false edge of buf.Len() > 0 (or the true edge of == 0)
+			emptyEdge := func(b *ssa.BasicBlock) int {
+				ifi, ok := b.Instrs[len(b.Instrs)-1].(*ssa.If)
+				if !ok {
+					return -1
+				}
+				bin, ok := ifi.Cond.(*ssa.BinOp)
+				if !ok || !isBufCall(bin.X, "Len") {
+					return -1
+				}
+				if k, ok := constInt(bin.Y); !ok || k != 0 {
+					return -1
+				}
+				switch bin.Op {
+				case token.GTR, token.NEQ:
+					return 1
+				case token.EQL, token.LEQ:
+					return 0
+				}
+				return -1
+			}
+			type key struct {
+				b                 *ssa.BasicBlock
+				restored, flushed bool
+			}
+			seen := map[key]bool{}
+			var bad *pathResult
+			var why string
+			var walk func(b *ssa.BasicBlock, from int, restored, flushed bool, trail []*ssa.BasicBlock)
+			walk = func(b *ssa.BasicBlock, from int, restored, flushed bool, trail []*ssa.BasicBlock) {
+				if bad != nil {
+					return
+				}
+				if from == 0 {
+					k := key{b, restored, flushed}
+					if seen[k] {
+						return
+					}
+					seen[k] = true
+				}
+				trail = append(trail, b)
+				for i := from; i < len(b.Instrs); i++ {
+					x := b.Instrs[i]
+					if isRestore(x) {
+						restored = true
+					}
+					if isFlush(x) && restored {
+						flushed = true
+					}
+					if _, isRet := x.(*ssa.Return); isRet {
+						if !restored || !flushed {
+							bad = &pathResult{exit: x, trace: append([]*ssa.BasicBlock{}, trail...)}
+							if !restored {
+								why = "State.Out still points at the local buffer at this return"
+							} else {
+								why = "the bytes captured in the local buffer are not written to the restored writer on this path: what the callee printed is lost"
+							}
+						}
+						return
+					}
+					if _, isPanic := x.(*ssa.Panic); isPanic {
+						return
+					}
+				}
+				ee := emptyEdge(b)
+				for i, s := range b.Succs {
+					walk(s, 0, restored, flushed || (i == ee && restored), trail)
+				}
+			}
+			walk(st.Block(), instrIndex(st)+1, false, false, nil)
+			desc := "output captured in a local buffer is written to the replaced writer on every return"
+			if bad != nil {
+				r.Fail("C01.R6", fname, desc, c.Pos(instrPos(bad.exit)), why, c.tracePath(bad)...)
+			} else {
+				r.Ok("C01.R6", fname, desc, c.Pos(st.Pos()))
+			}
+		})
+	}
+	if n == 0 {
+		r.Undecided("C01.R6: no redirection of State.Out to a local buffer found (applyFunction is expected to)")
+	}
+	r.Floor("C01.R6", 1)
 }
 
 func init() {
